@@ -53,7 +53,7 @@ Print Assumptions C13_rollup_ignores_decoys.
    MMUPageSize, Pss_Dirty, KSM, ..., SwapPss, Locked, THPeligible, ProtectionKey, VmFlags) with
    arbitrary values; sums and rows are those of the figures *)
 Theorem C13_smaps_ignores_decoys : forall ex ms,
-  (forall m, In m ms -> wf_header m = true /\ marker_ok ex m = true /\ probe_answers ex m = true /\
+  (forall m, In m ms -> wf_header m = true /\ marker_ok ex m = true /\
      exists fv d fl, m_lines m = k6_lines fv d fl /\ (forall f, is_dec (fv f) = true) /\
                      (forall i, is_dec (d i) = true) /\ fl <> [] /\ forallb flag_ok fl = true) ->
   parse_smaps Alive (FContent (k_smaps ms)) = Val (spec_sums ms)
@@ -98,8 +98,9 @@ Print Assumptions C13_full_info_rollup_rounded.
    path bytes after a non-blank first byte (blanks inside or at the end, colons, " (deleted)",
    non-UTF-8; a newline appears as the kernel shows it, \012), any kernel line set as long as it
    is the same for every mapping (uniform_figs); [wf_kernel probe] = the kernel's guarantees
-   (wf_kernel0) + the " (deleted)" marker is readable (marker_ok) + the existence probe of a
-   marked name answers "there" or "not there", the latter for whatever errno (probe_answers) *)
+   (wf_kernel0) + the " (deleted)" marker is readable (marker_ok: an unlinked file's marked name
+   is not shown to exist -- absent for whatever errno, or permission denied --, a live file
+   whose name ends in the marker exists) *)
 Theorem C13_maps_ungrouped : forall ex ms, forallb (wf_kernel ex) ms = true -> uniform_figs ms = true ->
   memory_maps Alive ex (FContent (k_smaps ms)) = Val (map spec_row ms).
 Proof. exact maps_ungrouped. Qed.
@@ -108,11 +109,11 @@ Print Assumptions C13_maps_ungrouped.
 (* the existence probe (os.stat of a name that ends in " (deleted)") is a 3-way value: there /
    not there for ANY OSError but a permission error (ENOENT, ENOTDIR, ENAMETOOLONG for a
    246..255-byte last component or a > 4095-byte path, ELOOP, EIO, EOVERFLOW ...) / permission
-   denied.  For every listing and every probe that answers: one row per smaps record, in the
-   records' order, every column but the path the record's own, the path the shown name with
-   the marker cut unless a file of the marked name exists -- no error, nothing dropped *)
+   denied.  For every listing and EVERY answer of the probe: the call succeeds with one row per
+   smaps record, in the records' order, every column but the path the record's own, the path
+   the shown name with the marker cut unless a file of the marked name exists *)
 Theorem C13_maps_rows_any_probe : forall ex ms,
-  forallb wf_kernel0 ms = true -> uniform_figs ms = true -> forallb (probe_answers ex) ms = true ->
+  forallb wf_kernel0 ms = true -> uniform_figs ms = true ->
   exists rows, memory_maps Alive ex (FContent (k_smaps ms)) = Val rows
     /\ length rows = length ms
     /\ map w_addr rows = map m_addr ms /\ map w_perms rows = map m_perms ms
@@ -121,7 +122,7 @@ Theorem C13_maps_rows_any_probe : forall ex ms,
 Proof. exact maps_rows_any_probe. Qed.
 Print Assumptions C13_maps_rows_any_probe.
 
-(* which errno made the probe say "not there" is irrelevant to the path *)
+(* why the probe said "not there" (errno, permission) is irrelevant to the path *)
 Theorem C13_absent_errno_irrelevant : forall ex ex' m,
   path_head_ok m = true -> m_deleted m = true ->
   is_exists (ex (shown_path m)) = false -> is_exists (ex' (shown_path m)) = false ->
@@ -129,12 +130,13 @@ Theorem C13_absent_errno_irrelevant : forall ex ex' m,
 Proof. exact absent_errno_irrelevant. Qed.
 Print Assumptions C13_absent_errno_irrelevant.
 
-(* probe_answers cannot be dropped: a PermissionError of the probe fails the whole call with
-   AccessDenied although the smaps file was read (path_exists_strict re-raises it) *)
+(* the decoding before /repo commit b718f0c (clean_path_strict) turned a PermissionError of
+   the probe into AccessDenied for the whole call; the present one lists every mapping *)
 Theorem C13_maps_probe_denied_refuted :
-  forallb wf_kernel0 [ex_m1; ex_m2] = true /\ uniform_figs [ex_m1; ex_m2] = true
-  /\ m_deleted ex_m1 = true /\ probe_answers deny_all ex_m1 = false
-  /\ memory_maps Alive deny_all (FContent (k_smaps [ex_m1; ex_m2])) = Exc AccessDenied
+  wf_kernel deny_all ex_m1 = true /\ m_deleted ex_m1 = true
+  /\ clean_path_strict deny_all (shown_path ex_m1) = Exc AccessDenied
+  /\ clean_path deny_all (shown_path ex_m1) = Val (m_path ex_m1)
+  /\ memory_maps Alive deny_all (FContent (k_smaps [ex_m1; ex_m2])) = Val (map spec_row [ex_m1; ex_m2])
   /\ map w_path (map spec_row [ex_m1; ex_m2]) = [bs "/tmp/a b:c"; bs "[anon]"].
 Proof. exact maps_probe_denied_refuted. Qed.
 Print Assumptions C13_maps_probe_denied_refuted.
